@@ -44,37 +44,56 @@ Definition c04_roundtrip (T : Z) (ss : list node) : option (list Z) :=
       end
   end.
 
+Definition c04_run_allpaths (a : list val) : val :=
+  match a with
+  | [T; f; t] => match as_z T, as_z f, as_z t with
+      | Some T, Some f, Some t =>
+          if c04_T_ok T && c04_u64 f && c04_u64 t then
+            match AllPaths T f t with Some l => vzs l | None => VPanic end
+          else VBad
+      | _, _, _ => VBad end
+  | _ => VBad end.
+Definition c04_spec_allpaths (a : list val) : val :=
+  match a with
+  | [T; f; t] => match as_z T, as_z f, as_z t with
+      | Some T, Some f, Some t => vzs (check_allpaths T (c04_h T) f t)
+      | _, _, _ => VBad end
+  | _ => VBad end.
+
+Definition c04_run_decode (a : list val) : val :=
+  match a with
+  | [T; bm] => match as_z T, as_zs bm with
+      | Some T, Some bm =>
+          if c04_T_ok T && words_okb bm then
+            match Decode T bm with Some l => vzs l | None => VPanic end
+          else VBad
+      | _, _ => VBad end
+  | _ => VBad end.
+Definition c04_spec_decode (a : list val) : val :=
+  match a with
+  | [T; bm] => match as_z T, as_zs bm with
+      | Some T, Some bm => vzs (spec_decode T (c04_h T) bm)
+      | _, _ => VBad end
+  | _ => VBad end.
+
+(** "held" variants: two calls, then both results are read (a result that aliases a reused
+    buffer is overwritten by the second call) *)
+Definition c04_two (f : list val -> val) (a : list val) : val :=
+  match a with
+  | [VL a1; VL a2] =>
+      match f a1, f a2 with
+      | VBad, _ | _, VBad => VBad
+      | r1, r2 => VL [r1; r2]
+      end
+  | _ => VBad end.
+
 Definition ops_C04 : list opdef := [
   (* AllPaths(T, from, to): the returned slice *)
-  {| op_name := "bmtree.AllPaths";
-     op_run := fun a => match a with
-       | [T; f; t] => match as_z T, as_z f, as_z t with
-           | Some T, Some f, Some t =>
-               if c04_T_ok T && c04_u64 f && c04_u64 t then
-                 match AllPaths T f t with Some l => vzs l | None => VPanic end
-               else VBad
-           | _, _, _ => VBad end
-       | _ => VBad end;
-     op_spec := fun_spec (fun a => match a with
-       | [T; f; t] => match as_z T, as_z f, as_z t with
-           | Some T, Some f, Some t => vzs (check_allpaths T (c04_h T) f t)
-           | _, _, _ => VBad end
-       | _ => VBad end) |};
+  {| op_name := "bmtree.AllPaths"; op_run := c04_run_allpaths; op_spec := fun_spec c04_spec_allpaths |};
+  {| op_name := "bmtree.AllPaths/held"; op_run := c04_two c04_run_allpaths; op_spec := fun_spec (c04_two c04_spec_allpaths) |};
   (* Decode(T, bm): the returned slice *)
-  {| op_name := "bmtree.Decode";
-     op_run := fun a => match a with
-       | [T; bm] => match as_z T, as_zs bm with
-           | Some T, Some bm =>
-               if c04_T_ok T && words_okb bm then
-                 match Decode T bm with Some l => vzs l | None => VPanic end
-               else VBad
-           | _, _ => VBad end
-       | _ => VBad end;
-     op_spec := fun_spec (fun a => match a with
-       | [T; bm] => match as_z T, as_zs bm with
-           | Some T, Some bm => vzs (spec_decode T (c04_h T) bm)
-           | _, _ => VBad end
-       | _ => VBad end) |};
+  {| op_name := "bmtree.Decode"; op_run := c04_run_decode; op_spec := fun_spec c04_spec_decode |};
+  {| op_name := "bmtree.Decode/held"; op_run := c04_two c04_run_decode; op_spec := fun_spec (c04_two c04_spec_decode) |};
   (* Decode(T, Of(map PathToIndex S)) for a sub-list S of the stored nodes: the words of S *)
   {| op_name := "bmtree.Decode/roundtrip";
      op_run := fun a => match a with
